@@ -47,31 +47,34 @@ func runC35(c *an.Ctx) {
 			for _, k := range an.CallsTo(add, get) {
 				extra[k.Value()] = an.ANonNil // the nonce slot is occupied
 			}
-			price := &an.Guard{Name: "price > old*101/100", FailValue: an.AFalse, MatchValue: func(v ssa.Value) bool {
-				b, ok := v.(*ssa.BinOp)
-				if !ok || b.Op != token.GTR {
-					return false
+			// new.GasPrice > bump(old.GasPrice), in any spelling; the new transaction is addEIPTxPool's own parameter
+			isNewPrice := func(x ssa.Value) bool {
+				f := fieldOfLoad(x)
+				return f != nil && f.Name() == "GasPrice" && strings.HasPrefix(an.AccessPath(x), add.Params[1].Name()+".")
+			}
+			isThreshold := func(y ssa.Value) bool { return !isNewPrice(y) && dependsOnOldPrice(y, 0) }
+			priceMatch := func(v ssa.Value) bool { m, _ := relMatch(v, token.GTR, isNewPrice, isThreshold); return m }
+			thresholdOf := func(v ssa.Value) ssa.Value {
+				b := v.(*ssa.BinOp)
+				if isNewPrice(b.X) {
+					return b.Y
 				}
-				f := fieldOfLoad(b.X)
-				return f != nil && f.Name() == "GasPrice"
-			}}
-			v := an.GuardedX(c.P, add, []*an.Guard{price}, extra, func(in ssa.Instruction) bool { return isCallTo(in, put) }, false)
+				return b.X
+			}
+			// the guard fails when "new > threshold" does not hold
+			var price []*an.Guard
+			for _, g := range relGuards("price > old*101/100", token.LEQ, isNewPrice, isThreshold) {
+				price = append(price, g)
+			}
+			v := an.GuardedX(c.P, add, price, extra, func(in ssa.Instruction) bool { return isCallTo(in, put) }, false)
 			c.Check(v.Holds && v.GuardSites == 1 && len(extra) == 1, "guard|addEIPTxPool|replace-needs-higher-price", "a pooled transaction with the same sender and nonce is replaced only by a strictly higher gas price", c.P.Rel(add.Pos()), v.Witness)
 			// strictness and operands: new.GasPrice > f(old.GasPrice)
-			okOps := false
-			for _, val := range an.FindValues(add, price.MatchValue) {
-				b := val.(*ssa.BinOp)
-				// the new transaction: addEIPTxPool's own parameter (whatever it is called)
-				if strings.HasPrefix(an.AccessPath(b.X), add.Params[1].Name()+".") && dependsOnOldPrice(b.Y, 0) {
-					okOps = true
-				}
-			}
+			okOps := len(an.FindValues(add, priceMatch)) >= 1
 			c.Check(okOps, "same-subject|addEIPTxPool|new-vs-old-price", "the comparison is new.GasPrice > a bump of the old transaction's GasPrice", c.P.Rel(add.Pos()), "operands changed")
 			// the bumped threshold is never below the old price: old*a/b with constants a >= b (multiply first), or old + something
 			okMono, form := false, "?"
-			for _, val := range an.FindValues(add, price.MatchValue) {
-				b := val.(*ssa.BinOp)
-				okMono, form = thresholdAtLeastOld(b.Y)
+			for _, val := range an.FindValues(add, priceMatch) {
+				okMono, form = thresholdAtLeastOld(thresholdOf(val))
 			}
 			c.Check(okMono, "monotone|addEIPTxPool|threshold-not-below-old-price", "the price a replacement must exceed is at least the pooled transaction's price (old*a/b with a >= b, multiplied before dividing, or old plus a non-negative bump) — otherwise a cheaper transaction can evict a dearer one", c.P.Rel(add.Pos()), "threshold has the form "+form+", which can be below the old price (integer division truncates before the multiplication)")
 			okNonce := false
@@ -211,26 +214,24 @@ func runC35(c *an.Ctx) {
 		v := an.Guarded(c.P, vf, []*an.Guard{dup}, nilErrReturn, false)
 		_ = v
 		noIterationCompletesWhenFailing(c, "forall|IncrementValidator.Verify|no-duplicate-hash", "a transaction whose hash is already in a block of the window is rejected", vf, []*an.Guard{dup}, nil)
-		nonce := &an.Guard{Name: "tx.Nonce != expected", FailValue: an.ATrue, MatchValue: func(v ssa.Value) bool {
-			b, ok := v.(*ssa.BinOp)
-			if !ok || b.Op != token.NEQ {
-				return false
-			}
-			x := b.X
+		// tx.Nonce != expected[payer], in either operand order and either polarity
+		nonce := relGuards("tx.Nonce != expected", token.NEQ, func(x ssa.Value) bool {
 			if cv, isC := x.(*ssa.Convert); isC {
 				x = cv.X
 			}
 			f := fieldOfLoad(x)
-			_, isLookup := b.Y.(*ssa.Lookup)
-			return f != nil && f.Name() == "Nonce" && isLookup
-		}}
+			return f != nil && f.Name() == "Nonce"
+		}, func(y ssa.Value) bool {
+			l, isLookup := y.(*ssa.Lookup)
+			return isLookup && an.AccessPathIn(vf, l.X) == vf.Params[len(vf.Params)-1].Name()
+		})
 		extra := map[ssa.Value]an.Abs{}
 		for _, k := range an.Calls(vf) {
 			if o := an.CalleeObj(k.Common()); o != nil && o.Name() == "IsEipTx" {
 				extra[k.Value()] = an.ATrue
 			}
 		}
-		v = an.GuardedX(c.P, vf, []*an.Guard{nonce}, extra, nilErrReturn, false)
+		v = an.GuardedX(c.P, vf, nonce, extra, nilErrReturn, false)
 		c.Check(v.Holds && v.GuardSites == 1, "guard|IncrementValidator.Verify|nonce-equals-expected", "an EVM transaction is accepted only if its nonce equals the next expected nonce of its sender in the shared context", c.P.Rel(vf.Pos()), v.Witness)
 		// the context is advanced (MapUpdate with nonce+1) only after the test
 		adv := func(in ssa.Instruction) bool {
@@ -242,7 +243,7 @@ func runC35(c *an.Ctx) {
 			// the nonce context: Verify's map parameter (whatever it is called)
 			return isB && b.Op == token.ADD && an.AccessPathIn(vf, mu.Map) == vf.Params[len(vf.Params)-1].Name()
 		}
-		v = an.GuardedX(c.P, vf, []*an.Guard{nonce}, extra, adv, false)
+		v = an.GuardedX(c.P, vf, nonce, extra, adv, false)
 		c.Check(v.Holds && v.ActionSites == 1, "guard|IncrementValidator.Verify|advance-after-test", "the expected nonce advances to nonce+1 only for an accepted transaction", c.P.Rel(vf.Pos()), v.Witness)
 	}
 }
